@@ -1,7 +1,107 @@
 import Driver.Util
-/- Sub-protocol `C10`: not built yet. -/
+import ZxVerif.Spec.Tape
+/-
+Sub-protocol `C10`: fast tape loading.
+  variant <0|1>                 0 = code as it is, 1 = with proposed_fixes/C10-1.diff      -> ok
+  tape <hex|->                  insert a TAP image (fresh Tap, fresh spec block list)      -> ok <blocks> <tail>
+  nb                            component level: Tap::next_block            -> M true|false|err:<e> S true|false|undecided
+  nbb <n>                       component level: up to n × Tap::next_block_byte
+                                -> M <hex|-> more|none|err:<e> S <hex|-> more|none  (or S undecided)
+  req <a> <load> <ix> <de> <sp> <win hex|->
+        system level: call of ROM 0x0556 with A, carry=load, IX, DE, SP (return address on top),
+        `win` = memory contents at IX, IX+1, … before the call
+        -> M <outcome> <ix> <de> <win after> S <outcome> <ix> <de> <win after>
+           outcome: ret1 | ret0 (returned to the caller with carry set / clear) | loops | err:<e>
+           spec outcome `undecided` when the request reaches a truncated tail of the image
+-/
 namespace Driver.C10
+open ZxVerif.Tape
 
-def proto : Driver.Proto := { σ := Unit, init := (), handle := fun s _ => (s, "unimplemented") }
+structure St where
+  fixed : Bool := false
+  tap : Tap := Tap.new []
+  blocks : List (List Byte) := []
+  tailLen : Nat := 0
+  specLost : Bool := false
+  cur : List Byte := []      -- spec: what is left of the block being read (component level)
+
+def errStr : Err → String
+  | .eof => "err:eof"
+  | .invalidTap => "err:invalid"
+  | .fuel => "err:fuel"
+
+def outcomeStr : SysOutcome → String
+  | .returned true => "ret1"
+  | .returned false => "ret0"
+  | .loops => "loops"
+  | .error e => errStr e
+
+def hexOrDash (bs : List Byte) : String := if bs.isEmpty then "-" else bytesHex bs
+
+def parseHex (s : String) : List Byte := if s = "-" then [] else hexBytes s
+
+/-- memory whose contents at ix, ix+1, … are `win` (zero elsewhere) -/
+def winMem (ix : BitVec 16) (win : Array Byte) : Mem :=
+  { base := fun a => win.getD ((a - ix).toNat) 0 }
+
+/-- the window after the writes of `m` -/
+def winAfter (ix : BitVec 16) (win : Array Byte) (m : Mem) : List Byte :=
+  (m.writes.foldr (fun (w : BitVec 16 × Byte) (arr : Array Byte) =>
+      arr.setIfInBounds ((w.1 - ix).toNat) w.2) win).toList
+
+def drain : Nat → Reader → List Byte → List Byte × String × Reader
+  | 0, r, acc => (acc.reverse, "more", r)
+  | n + 1, r, acc =>
+    match nextBlockByte r with
+    | (.error e, r) => (acc.reverse, errStr e, r)
+    | (.ok none, r) => (acc.reverse, "none", r)
+    | (.ok (some b), r) => drain n r (b :: acc)
+
+def handle (s : St) : List String → St × String
+  | ["variant", v] => ({ s with fixed := boolD v }, "ok")
+  | ["tape", h] =>
+    let data := parseHex h
+    let bl := Spec.blocks data
+    let tl := (Spec.tail data).length
+    ({ s with tap := Tap.new data, blocks := bl, tailLen := tl, specLost := false, cur := [] },
+      s!"ok {bl.length} {tl}")
+  | ["nb"] =>
+    let (mStr, rd) := match nextBlock s.tap.rd with
+      | (.error e, rd) => (errStr e, rd)
+      | (.ok b, rd) => (if b then "true" else "false", rd)
+    let s := { s with tap := { s.tap with rd := rd } }
+    if s.specLost then (s, s!"M {mStr} S undecided")
+    else match s.blocks with
+      | [] => if s.tailLen < 2 then ({ s with cur := [] }, s!"M {mStr} S false")
+              else ({ s with specLost := true }, s!"M {mStr} S undecided")
+      | b :: rest => ({ s with cur := b, blocks := rest }, s!"M {mStr} S true")
+  | ["nbb", n] =>
+    let n := hexNatD n
+    let (bs, st, rd) := drain n s.tap.rd []
+    let s := { s with tap := { s.tap with rd := rd } }
+    if s.specLost then (s, s!"M {hexOrDash bs} {st} S undecided")
+    else
+      let sStr := if n ≤ s.cur.length then s!"{hexOrDash (s.cur.take n)} more" else s!"{hexOrDash s.cur} none"
+      ({ s with cur := s.cur.drop n }, s!"M {hexOrDash bs} {st} S {sStr}")
+  | ["req", a, load, ix, de, sp, win] =>
+    let r : Request := { a := bv8 a, load := boolD load, ix := bv16 ix, de := bv16 de }
+    let winA := (parseHex win).toArray
+    let m0 := winMem r.ix winA
+    let (o, c, m, tap) := sysCall s.fixed r (bv16 sp) m0 s.tap
+    let mStr := s!"M {outcomeStr o} {hex16 c.ix} {hex16 c.de} {hexOrDash (winAfter r.ix winA m)}"
+    -- spec
+    let (sStr, blocks, lost) :=
+      if s.specLost then ("S undecided", s.blocks, true)
+      else match Spec.request r m0 s.blocks with
+        | (none, rest) =>
+          if s.tailLen < 2 then (s!"S loops {hex16 r.ix} {hex16 r.de} {hexOrDash winA.toList}", rest, false)
+          else ("S undecided", rest, true)
+        | (some res, rest) =>
+          (s!"S {if res.carry then "ret1" else "ret0"} {hex16 res.ix} {hex16 res.de} " ++
+             hexOrDash (winAfter r.ix winA res.mem), rest, false)
+    ({ s with tap := tap, blocks := blocks, specLost := lost, cur := [] }, mStr ++ " " ++ sStr)
+  | _ => (s, "bad-op")
+
+def proto : Driver.Proto := { σ := St, init := {}, handle := handle }
 
 end Driver.C10
